@@ -60,6 +60,13 @@ def run(m: Model, r: Report, tier: str) -> None:
            "code acceptable, or routes a reply to the wrong classes)", floor=4)
     from sa.uds_rules import iso_tables
     iso_tables(m, r, "R10", "both")
+    from sa.uds_rules import iso_subfunction_tables
+    iso_subfunction_tables(m, r, "R10")
+    from sa.uds_rules import range_helpers_rule
+    range_helpers_rule(m, r, "R4")
+    from sa.uds_rules import serialiser_keeps_order
+    if serialiser_keeps_order(m, r, "R1", "gallia.services.uds.core.service.UDSResponse") < 30:
+        raise AnalysisError("serialising methods of the response classes not found")
     r.rule("R11", "the declared length envelope of every response class covers the ISO 14229-1 envelope (a valid reply is not refused for its length)", floor=34)
     for p_ in reg.pairs:
         if p_.response is None or p_.service_id is None:
